@@ -312,6 +312,13 @@ z_number z_number::operator^(z_number x) const {
 
 // left shift  
 z_number z_number::operator<<(z_number x) const {
+  if (mpz_sgn(x._n) >= 0 && !mpz_fits_ulong_p(x._n)) {
+    // mpz_get_ui would silently keep only the low 64 bits of the amount
+    if (mpz_sgn(_n) == 0) {
+      return z_number(0);
+    }
+    CRAB_ERROR("z_number: left shift by ", x.get_str(), " cannot be represented");
+  }
   mpz_t mp_r;
   mpz_init(mp_r);  
   // TODO: check for potential overflow
@@ -323,7 +330,12 @@ z_number z_number::operator<<(z_number x) const {
 
 // arithmetic right shift  
 z_number z_number::operator>>(z_number x) const {
-  
+  if (mpz_sgn(x._n) >= 0 && !mpz_fits_ulong_p(x._n)) {
+    // mpz_get_ui would silently keep only the low 64 bits of the amount.
+    // The amount exceeds the bit length of any representable number:
+    // floor(n / 2^x) is 0 or -1.
+    return z_number(mpz_sgn(_n) < 0 ? -1 : 0);
+  }
   mpz_t mp_r;
   mpz_init(mp_r);
   // TODO: check for potential overflow
